@@ -26,6 +26,9 @@ Fixpoint wf (v : pyval) : bool :=
   | VObj c attrs => plain c && forallb (fun a => wf (snd a)) attrs
   end.
 
+(* user callables inside Is[...] are modelled as total boolean functions *)
+Definition preds_of (pb : nat -> pyval -> bool) (f : nat) (v : pyval) : res pyval := Ok (VBool (pb f v)).
+
 Section Chk.
   Variable cf : gconf.
   Variable r : Z.
